@@ -1,6 +1,7 @@
 package chainsim
 
 import (
+	"math/big"
 	"fmt"
 	"os"
 	"runtime/debug"
@@ -251,6 +252,9 @@ func setupTSS(e *Env, o core.RunOpts) error {
 	e.Shared["bandtss.genesis.params"] = bp
 	e.Shared["bandtss.genesis.current"] = uint64(1)
 	cfg := world.Config{Seed: o.Seed, ChainID: "simband", ValTokens: tokens, NumUsers: 14, Replicas: 1, GenesisTime: baseTime}
+	if o.Prop == "C03" {
+		cfg.NumUsers = 34
+	}
 	faults := drawFaults(e, false)
 	// accounts are created by world.New; member pool must exist before genesis, so derive the same accounts here
 	var accs []*world.Account
@@ -262,6 +266,14 @@ func setupTSS(e *Env, o core.RunOpts) error {
 		size = 9 + e.Ch.Intn("cfg.tss.groupsize.big", 4)
 	}
 	thr := uint64(1 + e.Ch.Intn("cfg.tss.threshold", size))
+	if o.Prop == "C03" && e.Ch.Bool("cfg.tss.hugegroup", 40) {
+		// member ids above 20 and committees of 15+ (governance may raise max_group_size): the Lagrange coefficients leave the
+		// precomputed table and their numerators and denominators exceed 64 bits
+		size = 21 + e.Ch.Intn("cfg.tss.groupsize.huge", 10)
+		thr = uint64(size - e.Ch.Intn("cfg.tss.threshold.huge", 7))
+		tp.MaxGroupSize = 40
+		e.St.Probe("tss_group_with_member_ids_above_20")
+	}
 	pool := NewTSSPool(e, accs[:size])
 	drawMemberBehaviour(e, pool, int(tp.MaxDESize), o.Prop != "C03")
 	e.Desc("tss params: period=%d maxattempt=%d maxde=%d; group size=%d threshold=%d; fee=%s penalty=%s", tp.SigningPeriod, tp.MaxSigningAttempt, tp.MaxDESize, size, thr, bp.FeePerSigner, bp.InactivePenaltyDuration)
@@ -279,6 +291,11 @@ func setupTSS(e *Env, o core.RunOpts) error {
 	// world accounts are the same keys; make pool point at the world's account objects
 	for i, m := range pool.Members {
 		m.Acc = w.Users[i]
+	}
+	if e.Ch.Bool("cfg.tss.paramchurn", 400) {
+		gov := &GovActor{}
+		e.Shared["gov"] = gov
+		e.Actors = append(e.Actors, gov, &TSSParamChurn{Rate: 15 + e.Ch.Intn("cfg.tss.churnrate", 40)})
 	}
 	e.Actors = append(e.Actors,
 		&TSSActor{Pool: pool, ByzP: e.Ch.Intn("cfg.tss.byz", 500), ReactP: 100 + e.Ch.Intn("cfg.tss.react", 400), OverDEP: e.Ch.Intn("cfg.tss.overde", 120)},
@@ -376,6 +393,12 @@ func setupFeeds(e *Env, o core.RunOpts) error {
 		fp.GracePeriod, fp.MinInterval, fp.MaxInterval, fp.PowerStepThreshold, fp.MaxCurrentFeeds, fp.CooldownTime, fp.CurrentFeedsUpdateInterval, fp.PriceQuorum, fp.AllowableBlockTimeDiscrepancy, allowed,
 		op.ExpirationBlockCount, time.Duration(op.InactivePenaltyDuration))
 	cfg := world.Config{Seed: o.Seed, ChainID: "simband", ValTokens: tokens, NumUsers: 8, Replicas: 1, GenesisTime: baseTime}
+	whale := len(allowed) > 0 && e.Ch.Bool("cfg.restake.whale", 100)
+	if whale {
+		// balances above 2^64 of the restakable denoms: stakes, powers and locks cross the signed and unsigned 64-bit boundaries
+		big66 := math.NewIntFromBigInt(new(big.Int).Lsh(big.NewInt(1), 66))
+		cfg.UserCoins = sdk.NewCoins(sdk.NewInt64Coin("uband", 1_000_000_000_000), sdk.NewCoin("uusd", big66), sdk.NewCoin("uatom", big66))
+	}
 	faults := drawFaults(e, false)
 	faults.AbsentVote, faults.NilVote = 0, 0 // no downtime slashing: share/token rate stays 1
 	if o.Prop == "C06" || o.Prop == "C15" {
@@ -404,7 +427,7 @@ func setupFeeds(e *Env, o core.RunOpts) error {
 		lazy[v.Val.String()] = []int{0, 0, 100, 400}[e.Ch.Intn("cfg.feeder.lazy", 4)]
 	}
 	oa := &OracleActor{MaxOpen: 3, ReqRate: e.Ch.Intn("cfg.feeds.reqrate", 250), Scripts: []int{scriptEcho, scriptSimple}, NumDS: len(dss), ActivateP: 1000, Byz: 0, ReactivateP: 250}
-	sa := &StakeActor{Voters: voters, Rate: 150 + e.Ch.Intn("cfg.stake.rate", 500), Denoms: []string{"uusd", "uatom", "uband"}, VaultKeys: []string{"vaultA", "vaultB"}}
+	sa := &StakeActor{Voters: voters, Rate: 150 + e.Ch.Intn("cfg.stake.rate", 500), Denoms: []string{"uusd", "uatom", "uband"}, VaultKeys: []string{"vaultA", "vaultB"}, Whale: whale}
 	if o.Prop == "C16" || os.Getenv("VERIF_DEBUG_MODULEOPS") != "" {
 		sa.ModuleP = 60 + e.Ch.Intn("cfg.stake.module", 200)
 	}
